@@ -4,6 +4,10 @@ use crate::rng::Rng;
 
 pub const PLAIN: &[&str] = &["a", "b", "c", "ab", "abc", "abcd", " ", " ", "  ", "-", "x-y", "--", "a-b-c", "1", "."];
 pub const WIDE: &[&str] = &["é", "Ｈ", "😂", "\u{301}", "\u{200b}", "\u{a0}", "\u{2060}", "\u{ad}", "\u{17d8}", "\t", "字", "a\u{301}", " ", "b", ")", "("];
+/// characters whose UTF-8 bytes or truncated code points collide with the ASCII / Latin-1
+/// characters the crate looks for ('-' 0x2D, SHY 0xAD, NBSP 0xA0, ' ' 0x20, LF, CR, ESC, '[', BEL):
+/// they separate code that inspects chars from code that inspects bytes
+pub const ALIAS: &[&str] = &["中", "キ", "😭", "Ġ", "ě", "Ċ", "č", "ś", "à", "丠", "ć", "中-", "-中", "中 "];
 pub const LINES: &[&str] = &["\n", "\r", "\r\n", "\n\n", " \n", "\n "];
 pub const ANSI_OK: &[&str] = &["\x1b[0m", "\x1b[31m", "\x1b[1;32m", "\x1b]8;;http://x\x1b\\", "\x1b]8;;\x1b\\", "\x1b]0;t\x07", "\x1b[m"];
 pub const ANSI_BAD: &[&str] = &["\x1b", "\x1b[", "\x1b]", "\\", "\x07", "m", "@", "~", "0", ";", "[", "]", "\x1b ", "\x1b[1 q", "\x1b]0; \x07", "\x1b]8;;http://a-b\x1b\\", "\x1b\x1b"];
@@ -24,11 +28,11 @@ pub const FLAVORS: &[Flavor] = &[Flavor::Plain, Flavor::Wide, Flavor::AnsiOk, Fl
 fn token(rng: &mut Rng, fl: Flavor) -> &'static str {
     match fl {
         Flavor::Plain => *rng.pick(PLAIN),
-        Flavor::Wide => if rng.chance(1, 2) { *rng.pick(WIDE) } else { *rng.pick(PLAIN) },
+        Flavor::Wide => if rng.chance(1, 5) { *rng.pick(ALIAS) } else if rng.chance(1, 2) { *rng.pick(WIDE) } else { *rng.pick(PLAIN) },
         Flavor::AnsiOk => if rng.chance(1, 3) { *rng.pick(ANSI_OK) } else if rng.chance(1, 4) { *rng.pick(WIDE) } else { *rng.pick(PLAIN) },
         Flavor::AnsiBad => if rng.chance(1, 2) { *rng.pick(ANSI_BAD) } else if rng.chance(1, 3) { *rng.pick(ANSI_OK) } else { *rng.pick(PLAIN) },
         Flavor::Mixed => match rng.below(6) {
-            0 => *rng.pick(WIDE),
+            0 => if rng.chance(1, 4) { *rng.pick(ALIAS) } else { *rng.pick(WIDE) },
             1 => *rng.pick(ANSI_OK),
             2 => *rng.pick(ANSI_BAD),
             3 => *rng.pick(LINES),
